@@ -11,17 +11,17 @@ timeout 120 /venv/bin/python $M/m${K}_demo.py >/tmp/wt/$ID.m$K.demo_clean.txt 2>
 echo "$ID m$K: tests='$T' demo_with_mutant_rc=$D1 demo_clean_rc=$D0"
 case "$T" in *"366 passed"*) ;; *) echo "  -> REJECT (tests)"; exit 1;; esac
 [ $D1 -ne 0 ] && [ $D0 -eq 0 ] || { echo "  -> REJECT (demo)"; exit 1; }
-S=/verif/seeded/$ID-m$K; mkdir -p $S
+L=${3:-}; S=/verif/seeded/$ID-${L}m$K; mkdir -p $S
 cp $M/m$K.diff $S/patch.diff; cp $M/m${K}_demo.py $S/demo.py; cp $M/m$K.txt $S/notes.txt
-python3 - "$ID" "$K" "$T" <<'PY'
+python3 - "$ID" "$K" "$T" "$L" <<'PY'
 import json, sys
-ID, K, T = sys.argv[1:4]
-notes = open('/verif/seeded/%s-m%s/notes.txt' % (ID, K)).read()
+ID, K, T, L = sys.argv[1:5]
+notes = open('/verif/seeded/%s-%sm%s/notes.txt' % (ID, L, K)).read()
 json.dump({'property': ID, 'mutant': 'm' + K, 'breaks': ID, 'needs_to_manifest': notes.strip(),
            'what_i_ran': ['git apply patch.diff (scratch worktree /tmp/wt/%s)' % ID,
                           '/venv/bin/python -m pytest -q -p no:cacheprovider yaql  -> ' + T,
                           'demo.py with the change: exit != 0; demo.py on the unchanged tree: exit 0'],
            'origin': 'fresh sub-agent given only the property record and a scratch worktree',
-           'detected_by': None}, open('/verif/seeded/%s-m%s/meta.json' % (ID, K), 'w'), indent=1)
+           'detected_by': None}, open('/verif/seeded/%s-%sm%s/meta.json' % (ID, L, K), 'w'), indent=1)
 PY
 echo "  -> kept as $S"
